@@ -12,7 +12,7 @@ git -C "$X/repo" checkout -q --detach "$(git -C /repo rev-parse HEAD)"; git -C "
 rsync -a --exclude target --exclude target-nightly --exclude target-plain --exclude 'fuzz/target' --exclude 'fuzz/corpus-run' "$ROOT/harness/" "$X/harness/"
 sed -i "s#path = \"/repo\"#path = \"$X/repo\"#" "$X/harness/Cargo.toml"
 cp "$ROOT/KNOWN_FINDINGS.txt" "$X/root/"
-OUT="$ROOT/seeded/MATRIX.tsv"
+OUT="$ROOT/seeded/MATRIX.new.tsv"
 IDS=$(seq -f 'C%02g' 1 20)
 { printf "change"; for id in $IDS; do printf "\t%s" "$id"; done; printf "\n"; } > "$OUT"
 for p in "$ROOT"/mutants/$PAT.patch "$ROOT"/seeded/$PAT/patch.diff; do
@@ -35,4 +35,4 @@ for p in "$ROOT"/mutants/$PAT.patch "$ROOT"/seeded/$PAT/patch.diff; do
   echo "$name done"
 done
 git -C "$X/repo" checkout -q -- .
-echo "matrix written to $OUT  (X = check exits 1, . = exits 0, ? = infrastructure)"
+mv "$OUT" "$ROOT/seeded/MATRIX.tsv"; echo "matrix written to $ROOT/seeded/MATRIX.tsv  (X = check exits 1, . = exits 0, ? = infrastructure)"
